@@ -1,0 +1,81 @@
+//go:build verif
+
+// Contracts for the deductive verification in /verif (govc). Comment-only:
+// with the build tag off this file is not compiled, with it on it declares nothing.
+package parser
+
+// ---------------------------------------------------------------------------
+// C07: the source map relates every byte of a Go expression to the same byte of the generated code.
+//
+// SourceMap.Add(src, tgt): for the rune that starts at byte offset o of src.Value (on line j of the
+// expression, o = partOffset(j) + k), and for the end-of-line position of every line:
+//   SourceLinesToTarget[src line][src col] = (tgt.From.Index + o, tgt.From.Line + j, tgt col)
+//   TargetLinesToSource[tgt line][tgt col] = (src.From.Index + o, src.From.Line + j, src col)
+// with  src col = (j == 0 ? src.From.Col : 0) + k  and  tgt col = (j == 0 ? tgt.From.Col : 0) + k:
+// the same byte offset on both sides (so, with the RangeWriter contract, the same byte), consecutive
+// positions map to consecutive positions, and the reverse table inverts the forward table.
+
+//@ spec srcCol0(src, j) = ite(j == 0, src.Range.From.Col, 0)
+//@ spec tgtCol0(tgt, j) = ite(j == 0, tgt.From.Col, 0)
+
+//@ func NewPosition [C07]
+//@   inline
+
+// representation invariant of the tables: a line that is present maps to a non-nil inner table
+//@ spec innerOK(M) = forall(l, 0, 1<<32, implies(has(M, l), M[l] != nil))
+
+// what Add(src, tgt) records for byte offset k of line j of the expression
+//@ spec fwdOK(sm, src, tgt, j, k) = has(sm.SourceLinesToTarget, src.Range.From.Line + j) && has(sm.SourceLinesToTarget[src.Range.From.Line + j], srcCol0(src, j) + k) && sm.SourceLinesToTarget[src.Range.From.Line + j][srcCol0(src, j) + k] == pos3(tgt.From.Index + partOffset(src.Value, "\n", j) + k, tgt.From.Line + j, tgtCol0(tgt, j) + k)
+//@ spec revOK(sm, src, tgt, j, k) = has(sm.TargetLinesToSource, tgt.From.Line + j) && has(sm.TargetLinesToSource[tgt.From.Line + j], tgtCol0(tgt, j) + k) && sm.TargetLinesToSource[tgt.From.Line + j][tgtCol0(tgt, j) + k] == pos3(src.Range.From.Index + partOffset(src.Value, "\n", j) + k, src.Range.From.Line + j, srcCol0(src, j) + k)
+// line j is completely recorded: every rune start of the line and the position just past its end
+//@ spec lineDone(sm, src, tgt, j) = forall(k, 0, len(split(src.Value, "\n")[j]) + 1, implies(k == len(split(src.Value, "\n")[j]) || runeStart(split(src.Value, "\n")[j], k), fwdOK(sm, src, tgt, j, k) && revOK(sm, src, tgt, j, k)))
+
+// frame: an entry whose key is not one of the (line, column) pairs of this expression is kept as it was
+//@ spec inSrcRect(src, l, c) = src.Range.From.Line <= l && l < src.Range.From.Line + len(split(src.Value, "\n")) && srcCol0(src, l - src.Range.From.Line) <= c && c <= srcCol0(src, l - src.Range.From.Line) + len(split(src.Value, "\n")[l - src.Range.From.Line])
+//@ spec inTgtRect(src, tgt, l, c) = tgt.From.Line <= l && l < tgt.From.Line + len(split(src.Value, "\n")) && tgtCol0(tgt, l - tgt.From.Line) <= c && c <= tgtCol0(tgt, l - tgt.From.Line) + len(split(src.Value, "\n")[l - tgt.From.Line])
+//@ spec keptFwd(M, M0, src) = forall(l, 0, 1<<32, forall(c, 0, 1<<32, implies(has(M0, l) && has(M0[l], c) && !inSrcRect(src, l, c), has(M, l) && has(M[l], c) && M[l][c] == M0[l][c])))
+//@ spec keptRev(M, M0, src, tgt) = forall(l, 0, 1<<32, forall(c, 0, 1<<32, implies(has(M0, l) && has(M0[l], c) && !inTgtRect(src, tgt, l, c), has(M, l) && has(M[l], c) && M[l][c] == M0[l][c])))
+
+//@ func (*SourceMap) Add [C07]
+//@   requires innerOK(sm.SourceLinesToTarget) && innerOK(sm.TargetLinesToSource)
+//@   ensures innerOK(sm.SourceLinesToTarget) && innerOK(sm.TargetLinesToSource)
+//@   requires sm != nil && sm.SourceLinesToTarget != nil && sm.TargetLinesToSource != nil
+//@   requires inL(src.Value, UTF8_VALID)
+//@   requires src.Range.From.Col + len(src.Value) < 1<<31 && tgt.From.Col + len(src.Value) < 1<<31
+//@   requires src.Range.From.Line + len(split(src.Value, "\n")) < 1<<31 && tgt.From.Line + len(split(src.Value, "\n")) < 1<<31
+//@   requires src.Range.From.Index >= 0 && tgt.From.Index >= 0
+//@   modifies sm.Expressions, sm.SourceLinesToTarget, sm.TargetLinesToSource
+//@   ensures updatedFrom == src.Range.From
+// every line of the expression is recorded in both directions, the reverse entry inverting the forward one
+//@   ensures forall(j, 0, len(split(src.Value, "\n")), lineDone(sm, src, tgt, j))
+//@   ensures keptFwd(sm.SourceLinesToTarget, old(sm.SourceLinesToTarget), src) && keptRev(sm.TargetLinesToSource, old(sm.TargetLinesToSource), src, tgt)
+//@   loop 1 invariant keptFwd(sm.SourceLinesToTarget, old(sm.SourceLinesToTarget), src) && keptRev(sm.TargetLinesToSource, old(sm.TargetLinesToSource), src, tgt)
+//@   loop 2 invariant keptFwd(sm.SourceLinesToTarget, old(sm.SourceLinesToTarget), src) && keptRev(sm.TargetLinesToSource, old(sm.TargetLinesToSource), src, tgt)
+//@   loop 1 invariant srcIndex == src.Range.From.Index + partOffset(src.Value, "\n", lineIndex)
+//@   loop 1 invariant tgtIndex == tgt.From.Index + partOffset(src.Value, "\n", lineIndex)
+//@   loop 1 invariant sm.SourceLinesToTarget != nil && sm.TargetLinesToSource != nil && innerOK(sm.SourceLinesToTarget) && innerOK(sm.TargetLinesToSource)
+//@   loop 1 invariant forall(j, 0, lineIndex, lineDone(sm, src, tgt, j))
+//@   assume loop1.body: implies(inL(src.Value, UTF8_VALID), inL(lines[lineIndex], UTF8_VALID))
+//@   loop 2 invariant srcIndex == src.Range.From.Index + partOffset(src.Value, "\n", lineIndex) + iter
+//@   loop 2 invariant tgtIndex == tgt.From.Index + partOffset(src.Value, "\n", lineIndex) + iter
+//@   loop 2 invariant srcCol == srcCol0(src, lineIndex) + iter && tgtCol == tgtCol0(tgt, lineIndex) + iter
+//@   loop 2 invariant sm.SourceLinesToTarget != nil && sm.TargetLinesToSource != nil && innerOK(sm.SourceLinesToTarget) && innerOK(sm.TargetLinesToSource)
+//@   loop 2 invariant forall(j, 0, lineIndex, lineDone(sm, src, tgt, j))
+//@   loop 2 invariant forall(k, 0, iter, implies(runeStart(line, k), fwdOK(sm, src, tgt, lineIndex, k) && revOK(sm, src, tgt, lineIndex, k)))
+//@   assert loop2.end: sm.SourceLinesToTarget[srcLine][srcCol - rlen] == pos3(tgtIndex - rlen, tgtLine, tgtCol - rlen)
+//@   assert loop2.end: sm.TargetLinesToSource[tgtLine][tgtCol - rlen] == pos3(srcIndex - rlen, srcLine, srcCol - rlen)
+//@   assert loop2.end: srcLine == src.Range.From.Line + lineIndex && tgtLine == tgt.From.Line + lineIndex
+//@   assert loop1.bodyend: sm.SourceLinesToTarget[srcLine][srcCol] == pos3(tgtIndex - 1, tgtLine, tgtCol)
+//@   assert loop1.bodyend: sm.TargetLinesToSource[tgtLine][tgtCol] == pos3(srcIndex - 1, srcLine, srcCol)
+//@   assert loop1.bodyend: srcCol == srcCol0(src, lineIndex) + len(line) && tgtCol == tgtCol0(tgt, lineIndex) + len(line)
+//@   assert loop1.bodyend: fwdOK(sm, src, tgt, lineIndex, len(line)) && revOK(sm, src, tgt, lineIndex, len(line))
+//@   assert loop1.bodyend: forall(k, 0, len(line), implies(runeStart(line, k), fwdOK(sm, src, tgt, lineIndex, k) && revOK(sm, src, tgt, lineIndex, k)))
+//@   assert loop1.bodyend: keptFwd(sm.SourceLinesToTarget, old(sm.SourceLinesToTarget), src)
+//@   assert loop1.bodyend: keptRev(sm.TargetLinesToSource, old(sm.TargetLinesToSource), src, tgt)
+//@   assert loop1.bodyend: lineDone(sm, src, tgt, lineIndex)
+//@   assert loop1.bodyend: forall(j, 0, lineIndex, lineDone(sm, src, tgt, j))
+
+//@ func (*SourceMap) TargetPositionFromSource [C07]
+//@   requires sm != nil
+//@   ensures implies(ok, has(sm.SourceLinesToTarget, line) && has(sm.SourceLinesToTarget[line], col) && tgt == sm.SourceLinesToTarget[line][col])
+//@   ensures implies(has(sm.SourceLinesToTarget, line) && has(sm.SourceLinesToTarget[line], col), ok)
